@@ -142,10 +142,17 @@ func vpC12Frozen(ti int) {
 		return nil
 	})
 	// language values with entries the encoders skip (empty text, repeated tag) followed by kept ones
-	if vpBool() {
+	switch vpChoice(3) {
+	case 1:
 		_ = OnObject(x, func(o *Object) error {
 			o.Summary = NaturalLanguageValues{{Ref: "en", Value: Content{}}, {Ref: "fr", Value: Content("salut")}, {Ref: "de", Value: Content{vpLower()}}}
 			o.Content = NaturalLanguageValues{{Ref: "en", Value: Content("a")}, {Ref: "en", Value: Content("b")}, {Ref: "fr", Value: Content("c")}}
+			return nil
+		})
+	case 2: // entries whose tag was left empty (not the "no language" tag): an operation that normalises them writes
+		_ = OnObject(x, func(o *Object) error {
+			o.Summary = NaturalLanguageValues{{Ref: "", Value: Content("x")}, {Ref: "en", Value: Content("y")}}
+			o.Content = NaturalLanguageValues{{Value: Content("only")}}
 			return nil
 		})
 	}
